@@ -111,8 +111,8 @@ impl Prop for C05P {
     }
     fn plan(&self, tier: Tier, _seed: u64) -> Plan {
         let mut p = Plan::new(
-            vec![sec("pinned", 200), sec("explicit-programs", tier.pick(20_000, 400_000)), sec("elaboration-of-accepted-programs", tier.pick(15_000, 300_000))],
-            "type-directed generation of fully annotated well-typed programs (polymorphic, higher-order, dependent function types, recursive and mutually recursive groups of 1-5 definitions, forward type aliases, type-level redexes/conditionals/definitions in annotations, integers beyond 64 bits), printed with varied parenthesisation and layout; each must be accepted with a type convertible to the reference checker's and to the intended one; for every accepted program of any generator (explicit, inferred, syntactic) the elaborated term is compared with the parse output, holes of the source being the only wildcard; non-trivial = distinct accepted program",
+            vec![sec("pinned", 200), sec("explicit-programs", tier.pick(20_000, 400_000)), sec("elaboration-of-accepted-programs", tier.pick(15_000, 300_000)), crate::fw::sec_ex("small-explicit-programs-exhaustive", crate::gen_small::total_upto(tier.pick(5, 6)).div_ceil(256))],
+            "type-directed generation of fully annotated well-typed programs (polymorphic, higher-order, dependent function types, recursive and mutually recursive groups of 1-5 definitions, forward type aliases, type-level redexes/conditionals/definitions in annotations, integers beyond 64 bits), printed with varied parenthesisation and layout; each must be accepted with a type convertible to the reference checker's and to the intended one; every fully annotated source program of at most 5 (quick) / 6 (thorough) nodes that the reference accepts must be accepted too; for every accepted program of any generator (explicit, inferred, syntactic) the elaborated term is compared with the parse output, holes of the source being the only wildcard; non-trivial = distinct accepted program",
         );
         p.assumptions = vec![
             "R-core (harness/src/core.rs) implements the typing rules of DESIGN.md A.5/A.6; programs it cannot judge within its fuel are inconclusive".into(),
@@ -121,7 +121,7 @@ impl Prop for C05P {
         p.floor_evaluations = 5_000;
         p.floor_nontrivial = 3_000;
         p.death_is_violation = true;
-        p.death_sections = vec!["explicit-programs", "pinned"];
+        p.death_sections = vec!["explicit-programs", "pinned", "small-explicit-programs-exhaustive"];
         p.case_timeout_s = 10;
         p
     }
@@ -150,6 +150,39 @@ impl Prop for C05P {
                 let src = print(&p.h, &style, idx).text;
                 ctx.max("max_program_bytes", src.len() as u64);
                 check_explicit(ctx, &p, &src);
+            }
+            "small-explicit-programs-exhaustive" => {
+                let maxn = ctx.tier.pick(5, 6);
+                let total = crate::gen_small::total_upto(maxn);
+                let lo = idx * 256;
+                let hi = (lo + 256).min(total);
+                for i in lo..hi {
+                    let h = crate::gen_small::nth(maxn, i);
+                    if crate::typed::has_source_holes(&h) {
+                        continue;
+                    }
+                    let SourceVerdict::WellTyped(nbe, rty) = judge_source(&h) else { continue };
+                    ctx.eval();
+                    let src = print(&h, &Style::plain(), 0).text;
+                    let obs = observe(&src, &[], &Opts::check_only());
+                    match &obs.front {
+                        Front::Accepted => {
+                            ctx.count("small-explicit-accepted");
+                            ctx.nontrivial(hash_str(&src));
+                            if let Some(ty) = &obs.ty {
+                                if let Ok(gty) = rcore_eval_closed(&nbe, ty) {
+                                    if let Ok(false) = nbe.conv(&rty, &gty) {
+                                        viol(ctx, "reported-type-differs-from-reference", &format!("gram reports type `{}` but the reference checker infers a type with head `{}`", clip(&obs.ty_text, 300), nbe.head(&rty)), &src);
+                                    }
+                                }
+                            }
+                            check_elaboration(ctx, &obs, &src);
+                        }
+                        Front::TypeErr(m) => viol(ctx, "rejects-explicit-well-typed", &format!("type_check rejected a small fully annotated program that the reference checker accepts: {}", clip(&m.join(" | "), 400)), &src),
+                        Front::Panic(stage, m) => viol(ctx, &format!("explicit-program-crashes@{}", crate::fw::panic_site(m)), &format!("{stage} panicked: {m}"), &src),
+                        _ => ctx.count("small-explicit-rejected-before-type-checking"),
+                    }
+                }
             }
             "elaboration-of-accepted-programs" => {
                 let mut r = Rng::for_case(ctx.seed, 2, idx);
